@@ -20,7 +20,7 @@ EXPLANATION = (
     "OnceLock; defaults otherwise (C10-c). The cfg(test) send_settings switch is test-only code.")
 # every anchor of these rules lives in the h3 crate: thorough tier repeats them on the feature-less build
 EXTRA_CONFIGS = ["h3-plain"]
-RULES = "C13-a what is sent (A4/A11); C13-b capacity and buffer bound (A17/A6); C13-c setup never panics (A4/A5); C13-d receive, every supported identifier stored whatever its value (A3/A2/A11); C13-e applied once (A10); shared: varint form tables under C13-a, frame reader memo under C13-d; shared through a proxy: C02-g under C13-d; C10-c (protocol defaults) under C13-a"
+RULES = "C13-a what is sent, every SettingId constant is the registered number (A4/A11); C13-b capacity and buffer bound (A17/A6); C13-c setup never panics (A4/A5); C13-d receive, every supported identifier stored whatever its value, the length pre-check refuses only entries shorter than two bytes (A3/A2/A11/A5); C13-e applied once (A10); shared: varint form tables under C13-a, frame reader memo under C13-d; shared through a proxy: C02-g under C13-d; C10-c (protocol defaults) under C13-a"
 
 FRM = "h3::proto::frame::"
 HERE = os.path.dirname(os.path.dirname(os.path.abspath(__file__)))
